@@ -116,8 +116,25 @@ def run(ctx):
         ws_status = q.writes(field="status", owner="Order")
         ws_end = q.writes(field="end_time", owner="Order")
         ws_arr = q.writes(field="arr_time", owner="Order")
+        def status_values(w):
+            """constant status written, or the set of constants all call sites pass for a status parameter"""
+            v = status_const(w.val)
+            if v is not None:
+                return {v}
+            if w.val[0] == "param":
+                vals = set()
+                for g in book_fns:
+                    for c in m.q(g).calls(f.name):
+                        if c.target is not None and c.target.path == f.path and w.val[1] - 1 < len(c.args):
+                            sv = status_const(c.args[w.val[1] - 1])
+                            vals.add(sv)
+                return vals
+            return {None}
         for w in ws_status:
-            new = status_const(w.val)
+            news = status_values(w)
+            new = next(iter(news)) if len(news) == 1 else ("TERMINAL" if news and all(x in TERMINAL for x in news) else None)
+            if new == "TERMINAL":
+                new = "Cancelled"   # any terminal status: the pairing rule is the same
             ent = w.addr[1]
             if new in TERMINAL:
                 pair = [e for e in ws_end if e.b == w.b and same(e.addr[1], ent)]
@@ -135,7 +152,7 @@ def run(ctx):
         for e in ws_end:
             n_end += 1
             ent = e.addr[1]
-            pair = [w for w in ws_status if w.b == e.b and same(w.addr[1], ent) and status_const(w.val) in TERMINAL]
+            pair = [w for w in ws_status if w.b == e.b and same(w.addr[1], ent) and status_values(w) and all(x in TERMINAL for x in status_values(w))]
             ctx.check(len(pair) == 1, "end-time", "orphan|" + f.short(), e.loc(),
                       "end_time written only together with a terminal status", "end_time of %s written without a terminal status write: %s" % (render(ent), e.text()))
         for a in ws_arr:
